@@ -35,7 +35,7 @@ class Conn:
     __slots__ = ("cid", "sock", "accepted_at", "registered", "running", "closed_at", "closed_by", "sent", "inbuf",
                  "peer_closed", "handled", "idle_since", "listener", "dispatched_at_iter", "data_arrived_iter",
                  "close_under_handler", "responses_done", "last_keepalive", "early_close", "polls_ready", "waits_ready",
-                 "read_unanswered", "parked_seq", "started_seq", "queued_dispatch")
+                 "read_unanswered", "parked_seq", "started_seq", "queued_dispatch", "parks", "busy_behind", "repark_behind")
 
     def __init__(self, cid, sock, now, listener):
         self.cid = cid
@@ -63,6 +63,9 @@ class Conn:
         self.parked_seq = None          # event number at which it was put back into the poller as an idle keep-alive connection
         self.started_seq = None         # event number at which its current handler started running
         self.queued_dispatch = False    # handed to the pool, handler not started yet
+        self.parks = 0                  # times it was put back into the poller as an idle keep-alive connection
+        self.busy_behind = False        # became busy again while an older, not yet expired idle connection was parked before it
+        self.repark_behind = False      # ... and was parked again after that request
 
 
 class ScriptedSocket:
@@ -159,6 +162,9 @@ class ScriptedSocket:
                           "connection %d: %d request bytes were read, nothing was answered, the client is connected and the worker "
                           "is not stopping - closed by the %s" % (c.cid, c.read_unanswered,
                                                                   "loop" if threading.get_ident() == k.loop_thread else "handler thread"))
+            if c.repark_behind and c.idle_since is not None and threading.get_ident() == k.loop_thread and k.worker is not None \
+                    and k.worker.alive:
+                k.count("reparked_behind_older_idle_then_reaped")
             k.log.append((k.now, "close", c.cid, "loop" if threading.get_ident() == k.loop_thread else "pool"))
             k.cond.notify_all()
 
@@ -230,6 +236,14 @@ class ScriptedSelector:
                 if fileobj.conn.idle_since is not None:
                     self.k.seq += 1
                     fileobj.conn.parked_seq = self.k.seq
+                    fileobj.conn.parks += 1
+                    if fileobj.conn.busy_behind:
+                        # idle -> busy while queued behind an older idle connection -> idle again
+                        fileobj.conn.busy_behind = False
+                        fileobj.conn.repark_behind = True
+                        self.k.count("reparked_behind_older_idle")
+                    else:
+                        fileobj.conn.repark_behind = False
 
     def unregister(self, fileobj):
         with self.k.cond:
@@ -280,6 +294,12 @@ class ControlledExecutor:
             if args and hasattr(args[0], "sock") and isinstance(args[0].sock, ScriptedSocket):
                 c = args[0].sock.conn
                 c.dispatched_at_iter = self.k.iterations
+                if c.parked_seq is not None:
+                    # an idle keep-alive connection becomes busy again: is an older idle connection, whose keep-alive time has
+                    # not run out, parked in front of it?
+                    c.busy_behind = any(o is not c and o.closed_at is None and o.parked_seq is not None and o.parked_seq < c.parked_seq
+                                        and o.idle_since is not None and o.idle_since + self.k.keepalive > self.k.now
+                                        for o in self.k.conns.values())
                 c.idle_since = None         # dispatched: no longer an idle keep-alive connection
                 c.parked_seq = None
                 c.queued_dispatch = True
@@ -698,6 +718,17 @@ class Kernel:
             return self._handed(self.ready_keys(sel))
 
     def _handed(self, ready):
+        if self.keepalive and self.worker is not None and self.worker.alive:
+            # scheduling class: an event on an idle keep-alive connection is handed to the loop in the very select() round in
+            # which that connection's keep-alive time is already over (the reaper has not looked at it yet)
+            for key, _ in ready:
+                fo = key.fileobj
+                if isinstance(fo, ScriptedSocket) and not fo.closed:
+                    c = fo.conn
+                    if c.idle_since is not None and c.running is None and c.parked_seq is not None and \
+                            self.now >= c.idle_since + self.keepalive:
+                        self.count("event_on_idle_connection_past_keepalive_time")
+                        self.count("event_on_idle_connection_past_keepalive_time/" + ("bytes" if c.inbuf else "disconnect"))
         if self.log_selects:
             socks = [(key.fileobj.cid, len(key.fileobj.conn.inbuf), not key.fileobj.conn.peer_closed)
                      for key, _ in ready if isinstance(key.fileobj, ScriptedSocket)]
@@ -842,9 +873,18 @@ class Kernel:
         # auxiliary agreement with the worker's own bookkeeping
         if w is not None and self.queued == 0 and all(s != "running" for s in self.tstates.values()):
             nopen = self.open_count()
-            if getattr(w, "nr_conns", nopen) != nopen:
+            nr = getattr(w, "nr_conns", nopen)
+            if nr != nopen:
                 self.count("aux_nr_conns_disagrees")
                 self.aux = "nr_conns=%s, open=%d" % (getattr(w, "nr_conns", None), nopen)
+                # the worker's own count is what it compares with worker_connections before it accepts: a count that is too low
+                # lets it hold more than worker_connections later, one that is too high takes slots away for good
+                held = sorted(c.cid for c in self.conns.values() if c.closed_at is None)
+                self.violate("open-connection-count-below-zero" if nr < 0 else
+                             "open-connection-count-lower-than-connections-held" if nr < nopen else
+                             "open-connection-count-higher-than-connections-held",
+                             "the worker counts %s open connections (nr_conns) and really holds %d %s at a point where no handler "
+                             "thread is running (worker_connections = %d)" % (nr, nopen, held, self.worker_connections))
             else:
                 self.count("aux_nr_conns_agrees")
 
@@ -858,6 +898,13 @@ class Kernel:
         if left and self.worker is not None and self.worker.alive:
             self.violate("connections-left-open-after-clients-left",
                          "connections %s still open %d s after every client disconnected" % (left, int(self.keepalive) + 4))
+        w = self.worker
+        if not left and w is not None and w.alive and self.queued == 0 and all(s != "running" for s in self.tstates.values()):
+            self.count("drain_count_checks")
+            if getattr(w, "nr_conns", 0) != 0:
+                self.violate("open-connection-count-not-zero-after-clients-left",
+                             "every client has left and every connection is closed, the worker's count of open connections (nr_conns) "
+                             "is %s" % w.nr_conns)
 
 
 def run_history(cfgset, history, nlisteners=1, budget=600):
